@@ -157,15 +157,32 @@ def hedgers_finite(ctx: Ctx) -> None:
     from pfhedge.instruments import AmericanBinaryOption, BrownianStock, EuropeanBinaryOption, EuropeanOption, HestonStock, LookbackOption
     from pfhedge.nn import BlackScholes, Hedger, WhalleyWilmott
     torch.manual_seed(ctx.seed)
+    class ZeroVolStock(BrownianStock):        # volatility exactly zero: the paths stay at the initial price (at the money)
+        def __init__(self, **kw):
+            super().__init__(sigma=0.0, **kw)
+
+    class TinyVolStock(BrownianStock):
+        def __init__(self, **kw):
+            super().__init__(sigma=1e-30, **kw)
+
     for dcls in (EuropeanOption, LookbackOption, AmericanBinaryOption, EuropeanBinaryOption):
-        for scls in (BrownianStock, HestonStock):
+        for scls in (BrownianStock, HestonStock, ZeroVolStock, TinyVolStock):
             for mk in (BlackScholes, WhalleyWilmott):
                 if mk is WhalleyWilmott and dcls is not EuropeanOption and False:
                     continue
                 for scripted in (False, True):
+                    zero_vol = scls in (ZeroVolStock, TinyVolStock)
+                    if zero_vol and dcls is LookbackOption:
+                        continue      # its delta is an automatic derivative that is NaN at zero volatility: the known finding
                     stock = scls(cost=1e-3, dt=1 / 50, dtype=DT)
-                    d = dcls(stock, maturity=6 / 50, strike=1.0)
+                    # at zero volatility the spot never moves: exactly at the strike the binary deltas are genuinely infinite,
+                    # so the binaries are struck away from the spot; the European option stays at the money (infinite gamma,
+                    # hence an infinitely wide Whalley-Wilmott band, with a finite delta)
+                    strike = 1.0 if (not zero_vol or dcls is EuropeanOption) else 1.1
+                    d = dcls(stock, maturity=6 / 50, strike=strike)
                     d.simulate(n_paths=64)
+                    if scripted and scls in (ZeroVolStock, TinyVolStock):
+                        continue
                     if scripted:      # paths ending exactly at the strike / touching it exactly / flat at the strike
                         sp = stock.spot.clone()
                         sp[:16, -1] = 1.0
@@ -181,12 +198,14 @@ def hedgers_finite(ctx: Ctx) -> None:
                         ctx.violation(f"hedger:raises:{mk.__name__}", f"{mk.__name__} hedger raised {type(e).__name__} on {dcls.__name__}/{scls.__name__}", {"error": repr(e)[:200]})
                         continue
                     ctx.count((dcls.__name__, scls.__name__, mk.__name__, scripted), n=64)
+                    if scls in (ZeroVolStock, TinyVolStock) and (dcls is LookbackOption or mk is BlackScholes and dcls is not EuropeanOption and False):
+                        pass
                     if not bool(hedge.isfinite().all()):
                         bad = (~hedge.isfinite()).nonzero()[0].tolist()
-                        ctx.violation(f"hedger:nonfinite-hedge:{mk.__name__}:{dcls.__name__}", f"{mk.__name__} hedge of {dcls.__name__} on {scls.__name__} is not finite",
+                        ctx.violation(f"hedger:nonfinite-hedge:{mk.__name__}:{dcls.__name__}:{scls.__name__}", f"{mk.__name__} hedge of {dcls.__name__} on {scls.__name__} is not finite",
                                       {"scripted_paths": scripted, "first_bad_index": bad})
                     if not bool(plv.isfinite().all()):
-                        ctx.violation(f"hedger:nonfinite-pl:{mk.__name__}:{dcls.__name__}", f"{mk.__name__} P&L of {dcls.__name__} on {scls.__name__} is not finite", {"scripted_paths": scripted})
+                        ctx.violation(f"hedger:nonfinite-pl:{mk.__name__}:{dcls.__name__}:{scls.__name__}", f"{mk.__name__} P&L of {dcls.__name__} on {scls.__name__} is not finite", {"scripted_paths": scripted})
 
 
 def check(ctx: Ctx) -> None:
